@@ -16,8 +16,10 @@ names = node names `|`-separated (percent-encoded), net = canonical dump without
 (`;` ..)*, pinqueries = `~` | cell `:` pin (`;` ..)*, icqueries = `~` | c1 `:` p1 `:` c2 `:` p2 (`;` ..)* with p = `~` for "no pin".
 Answer: `<pins> # <ics>` in the table format of the `sdf` command (queries without a line are left out).
 
-Answer of `sdfwave`: `noparse` (the text model rejects, the transformer raises or a number is no whole number of thousandths) | `raise`
-(a guard of the annotation loops fails) | `<array> # <lane> / <lane> …` — array = non-zero coordinates `d.l.ip.op=v` of
+Answer of `sdfwave`: `noparse` (the text model rejects, the transformer raises or a number is no whole number of thousandths) |
+`raise:interconnects` (`sdfDelay = none`: no block without INSTANCE name, the real `df.interconnects()` raises `TypeError`) |
+`raise:entry` / `raise:slash` (a guard of the model fails — `RawCell.ok`, `slashOK` —: the real code raises there and the model is
+outside its domain) | `<array> # <lane> / <lane> …` — array = non-zero coordinates `d.l.ip.op=v` of
 `iopaths + interconnects` (format of the `sdf` command); lane = one token per signal index (`.` = never written). -/
 namespace KV.Drv.SdfWave
 open KV.Sdf KV.Wave KV.Sig KV.SdfWave KV.Drv.Sdf
@@ -64,7 +66,7 @@ def handleTabs (args : List String) : String :=
     let rows := (splitList pinidxS ";").filterMap fun r => match r.splitOn ":" with
       | [k, p, i] => some ((unpct k, unpct p), i.toNat!)
       | _ => none
-    let pinIdx : PinIdx := fun k p => (rows.find? (·.1 == (k, p))).map (·.2)
+    let pinIdx : KV.SdfWave.PinIdx := fun k p => (rows.find? (·.1 == (k, p))).map (·.2)
     let pins := (splitList pq ";").filterMap fun q => match q.splitOn ":" with
       | [c, p] => (netPinLine net names pinIdx (unpct c) (unpct p)).map fun l => s!"{c}:{p}:{l}"
       | _ => none
@@ -84,19 +86,21 @@ def handle (cmd : String) (args : List String) : Option String :=
     match rawOfText (unpct text) with
     | none => some "noparse"
     | some B =>
-      if !(B.all RawCell.ok) then some "raise" else
+      if !(B.all RawCell.ok) then some "raise:entry" else
       let df := parse m B
-      if df.interconnects.isNone then some "raise" else
-      let live := (icEntries df).filter fun e => !(icSkip (norm e.r) (norm e.f))
-      if !(live.all fun e => slashOK e.a && slashOK e.b) then some "raise" else
       let n := nlines.toNat!
       let pinT := parsePins pins
       let icT := parseIcs ics
-      -- `sdfDelay pinT icT df d l ip op` unfolded (`iopaths = applyAll ∘ iopathWrites`, `interconnects = applyAll ∘ icWrites`)
-      -- with the two write lists bound once as data
+      -- the model's answer decides: `sdfDelay … = none` ⇔ `interconnects … = none` (Props/C14Wave.lean `sdf_cfg_none_iff`)
+      if (sdfDelay pinT icT df 0).isNone then some "raise:interconnects" else
+      match icEntries df, interconnects icT df with
+      | some es, some ic =>
+      let live := es.filter fun e => !(icSkip (norm e.r) (norm e.f))
+      if !(live.all fun e => slashOK e.a && slashOK e.b) then some "raise:slash" else
+      -- `sdfDelay pinT icT df d = some (sumDelay pinT df ic d)`, `sumDelay … l ip op = iopaths pinT df d l ip op + ic d l ip op`
+      -- with `iopaths = applyAll ∘ iopathWrites` unfolded and the write list bound once as data (`ic` already holds its list)
       let ioW := iopathWrites pinT df
-      let icW := icWrites icT df
-      let del : Nat → Nat → Bool → Bool → Int := fun d l ip op => applyAll ioW d l ip op + applyAll icW d l ip op
+      let del : Nat → Nat → Bool → Bool → Int := fun d l ip op => applyAll ioW d l ip op + ic d l ip op
       let t0 := tabArr (del 0) n
       let t1 := tabArr (del 1) n
       let t2 := tabArr (del 2) n
@@ -114,6 +118,7 @@ def handle (cmd : String) (args : List String) : Option String :=
           runLane (if dd < 3 then tabLook (tabOf dd) n (del dd) else del dd) ops caps stim
         | _ => "bad-lane"
       some s!"{showArr arr n} # {" / ".intercalate lanes}"
+      | _, _ => some "raise:interconnects"
   | _ => some "bad-args"
 
 end KV.Drv.SdfWave
